@@ -3,7 +3,7 @@ from . import common as C
 
 MANIFEST = dict(
    technique="Lean 4 proof over a store model of the reference-typed schema state (Checks array with Go append semantics, Bag/Values/Shape maps, registry entry) + history correspondence: every exported chaining method of every schema type is called by reflection and the model must predict the same verdicts and the same sharing structure",
-   text="c08_step / c08_hist / c08_hist_all prove, for the code after pending/C08-clone-bag.diff (Internals.Clone always clones the Bag), that along every history of chaining calls (any receivers, sibling fan-outs, any append growth rule) no operation writes a location that existed before the call, so every live schema keeps its observation and every result is a new schema. today_partial_mutates_receiver / c08_today_false are the witnesses that the statement is false for the pinned Clone (Record.Partial mutates its receiver); metaSelf_violates shows Meta() on the non-string types (returns the receiver, rewrites its registry entry) falsifies the full statement — known finding per type.",
+   text="c08_step / c08_hist / c08_hist_all prove, for the code after pending/C08-clone-bag.diff (Internals.Clone always clones the Bag), that along every history of chaining calls (any receivers, sibling fan-outs, any append growth rule) no operation writes a location that existed before the call, so every live schema keeps its observation and every result is a new schema. today_partial_mutates_receiver / c08_today_false are the witnesses that the statement is false for the pinned Clone (Record.Partial mutates its receiver); obsL_frame / applyLOp_spec / c08_local_step extend the frame theorems to the type-local reference state of object/struct/union types (PartialExceptions / option lists beside Shape: reference copied, dropped, or a fresh key set), with exceptions_in_place_mutates_receiver as the witness for in-place edits. metaSelf_violates shows Meta() on the non-string types (returns the receiver, rewrites its registry entry) falsifies the full statement — known finding per type.",
    note="Partial: Meta() on 28 non-string schema types is excluded (open known findings). The store model is a hand-written abstraction (observation = contents reachable from the schema; Parse/ToJSONSchema are taken to be functions of it), tied to /repo by reflective snapshots (slice headers, map identities, contents) and behavioural fingerprints (31 probes, IsOptional/IsNilable, ToJSONSchema) after every call of ~1400 type×method pairs; op classes come from a name table in the harness; append capacities and 'result starts with a registry entry' are taken from the run as parameters. Trusted: Lean kernel, axioms propext/Classical.choice/Quot.sound, the Go harness and comparer.",
    design="DESIGN.md §3.4, §5 C08")
 
@@ -15,6 +15,8 @@ THEOREMS = [
     "Gozod.C08.today_partial_mutates_receiver", "Gozod.C08.c08_today_false",
     "Gozod.C08.metaSelf_violates", "Gozod.C08.metaSelf_changes_receiver",
     "Gozod.C08.spare_capacity_siblings_clobber", "Gozod.C08.inv_base",
+    "Gozod.C08.obsL_frame", "Gozod.C08.wfl_frame", "Gozod.C08.applyLOp_spec", "Gozod.C08.c08_local_step",
+    "Gozod.C08.exceptions_in_place_mutates_receiver",
 ]
 
 
@@ -84,7 +86,8 @@ def run(res):
     res.coverage["rule"] = ("for each of the base schemas (every schema type) and each exported method whose result can be a schema (reflection), "
         "two argument variants: history A = method on the fresh base, sibling from the same base, random method, method on the result; "
         "history B = 2-4 random chaining calls, the method on a random live schema, 2 more (thorough: 8 more); history C = 17-long check chains "
-        "crossing capacities 1,2,4,8,16 with a sibling at each boundary. After every call all live schemas are re-snapshotted and re-fingerprinted. "
+        "crossing capacities 1,2,4,8,16 with a sibling at each boundary; history D = ordered pairs of methods (m1 on the base, a sibling, m2 on the result). After every call all live schemas are re-snapshotted and re-fingerprinted, "
+        "and the content of their type-local reference fields (Shape, PartialExceptions, option/item lists; member schemas by identity) is compared with what it was before the call. "
         "distinct = distinct abstract histories (op lines).")
     res.assumptions += [
         "a schema's Parse verdicts/results and its JSON Schema are functions of the contents the store model observes (validated by the fingerprints staying equal whenever the snapshot content does)",
